@@ -20,7 +20,7 @@ structure GenCfg where
   fallThroughAlways : Bool := true
   /-- `true` (original emitter): the slice index test `len(s) > i` has no lower bound, so a negative
       index reaches `s[i]` and panics (get, compare, set, length, capacity). -/
-  negIndexPanics : Bool := true
+  negIndexPanics : Bool := false   -- repaired in /repo (fix: negative slice index …)
   /-- `true` (original emitter): in compare mode the `right == "nil"` interception of a pointer-typed
       struct field runs although the path continues below that field. -/
   nilInterceptAnyDepth : Bool := true
@@ -101,7 +101,7 @@ deriving Repr, Inhabited
 /-- The configuration that mirrors the tree as it is (flags flip when a `fix:` commit lands). -/
 def GenCfg.repo : GenCfg := {}
 /-- The tree as it was at the pinned commit (1c76ae3), before the `fix:` commits in /repo. -/
-def GenCfg.original : GenCfg := { GenCfg.repo with strAppendsOld := true }
+def GenCfg.original : GenCfg := { GenCfg.repo with strAppendsOld := true, negIndexPanics := true }
 /-- Every listed defect repaired: the configuration the property theorems are proved for. -/
 def GenCfg.fixed : GenCfg where
   fallThroughAlways := false
